@@ -27,12 +27,22 @@ BAD_STATEMENTS = [
     ("bad-match-variable", {"k": "raw", "text": "match E5(x=$undefined_zz)"}),
     ("bad-match-reference", {"k": "raw", "text": "match $undefined_ref.Finished()"}),
     ("division-by-zero", {"k": "assign", "var": "$bad", "expr": "1 / 0"}),
+    # errors that only fire when an event of that name arrives (match time), in shapes where the faulty flow - or a flow it
+    # started - has ANOTHER head waiting for the same event: the candidate list of that event then holds several heads of
+    # flows that the failure takes down together
+    ("bad-match-compare", {"k": "raw", "text": 'match E5(x=less_than("a"))'}),
+    ("bad-match-regex-in-or-group", {"k": "raw", "text": 'match E5(x=regex("(")) or E5(y=2) or E4(x=7)'}),
+    ("bad-match-regex-second-in-or-group", {"k": "raw", "text": 'match E4(x=7) or E5(x=regex("("))'}),
+    ("bad-match-with-child-on-same-event", [{"k": "start_flow", "flow": "zchild"}, {"k": "raw", "text": 'match E5(x=regex("("))'}]),
+    ("bad-match-and-group", {"k": "raw", "text": 'match E5(x=regex("(")) and E5()'}),
 ]
+MATCH_TIME = ["bad-match-regex", "bad-match-compare", "bad-match-regex-in-or-group", "bad-match-regex-second-in-or-group", "bad-match-with-child-on-same-event", "bad-match-and-group"]
 BAD_BY_NAME = dict(BAD_STATEMENTS)
 
 WITNESS = [
     {"name": "w1", "decorators": ['@loop("wit1")'], "body": [{"k": "match", "ev": "E3", "args": {}}, {"k": "send", "ev": "W1", "args": {}}]},
     {"name": "w2", "decorators": ['@loop("wit2")'], "body": [{"k": "match", "ev": "E5", "args": {}}, {"k": "send", "ev": "W2", "args": {}}, {"k": "match", "ev": "E4", "args": {}}, {"k": "send", "ev": "W3", "args": {}}]},
+    {"name": "zchild", "body": [{"k": "match", "ev": "E5", "args": {}}, {"k": "send", "ev": "Zc", "args": {}}, {"k": "match", "ev": "Never", "args": {}}]},
     {"name": "errwatch", "decorators": ['@loop("errwatch")'], "body": [{"k": "raw", "text": "match ColangError() as $e"}, {"k": "send", "ev": "ErrSeen", "args": {}}]},
 ]
 
@@ -68,7 +78,8 @@ def inject(prog, pos, stmt):
     cur = p
     for k in pos[:-1]:
         cur = cur[k]
-    cur.insert(pos[-1], copy.deepcopy(stmt))
+    for k, st in enumerate(stmt if isinstance(stmt, list) else [stmt]):
+        cur.insert(pos[-1] + k, copy.deepcopy(st))
     return p
 
 
@@ -352,8 +363,10 @@ class C10(InterpProp):
             for pi, pos in enumerate(positions):
                 k = sc.get("kinds_per_position", 2)
                 pick = names if k >= len(names) else d.sample(names, k, "kinds", pi)
-                if "bad-match-regex" not in pick and pi % 3 == 0:
-                    pick = pick + ["bad-match-regex"]
+                if pi % 3 == 0:
+                    mt = MATCH_TIME[(pi // 3 + d.index(len(MATCH_TIME), "mtphase")) % len(MATCH_TIME)]
+                    if mt not in pick:
+                        pick = pick + [mt]
                 for n in pick:
                     todo.append([list(pos), n])
         else:
@@ -397,7 +410,10 @@ class C10(InterpProp):
                                         % (name, where, rsteps[k]["all"] if k is not None else None, k, steps[k]["all"] if k is not None else None), pin=pin)
             # the failure may legitimately propagate to an ancestor/awaiter of the faulty flow; if it reaches
             # main (ancestor of everything) the witnesses are no longer 'unrelated' - no verdict then
-            if any(a.get("main") != b.get("main") for a, b in zip(twin, steps)):
+            # (uids are drawn from one seeded sequence that the parser also uses, so main's uid legitimately differs between the
+            # twin and the faulted program: main "stayed alive" = same instance and STARTED throughout the faulted run itself.
+            # Comparing with the twin's uid - as first written - skipped the verdict for 43 % of all injections.)
+            if not steps or any(b.get("main") is None or b["main"][1] != "STARTED" or b["main"][0] != steps[0]["main"][0] for b in steps):
                 out.probe("failure_propagated_to_main")
                 continue
             reached = False
